@@ -76,6 +76,36 @@ reg(
 )
 
 
+reg(
+    "C13",
+    "translation_validation",
+    "Each UTF-8 validator (scalar, broadword, raw AVX2 accept kernel, SIMD dispatcher) is evaluated from its MIR over a "
+    "boundary-complete family of byte windows (every row boundary of Unicode Table 3-7 and its neighbours, truncated and "
+    "complete, placed across 8-byte word and 32-byte block edges, followed by nothing / ASCII / a full ASCII block) and "
+    "compared with Table 3-7 (acceptance, longest-valid-prefix offset, LF line/column) and with each other (same error); "
+    "T1 decides the AVX2 dispatch. Boundary-complete, not exhaustive over byte strings.",
+    [only_cfgs(_lazy("utf8tab", "rule_utf8"), ["cli"]), T1_ALL],
+    quick=["cli"],
+    technique="finite-domain evaluation of validator MIR over boundary-complete window family vs Unicode Table 3-7 + target-feature dominance",
+    design_ref="§3 CLASS/SIBCONST (realised as UTF8TAB), §4 C13",
+)
+
+E_C08 = [r"^json::validate::validate$"]
+reg(
+    "C08",
+    "other",
+    "Decides structural clauses of strict JSON validation: recursion of the validator is guarded by an error-returning depth "
+    "test on every cycle (REC); UTF-8 acceptance inside strings follows Unicode Table 3-7 on a boundary-complete window family "
+    "and errors carry the offset/line/column of the same position (UTF8TAB(json)). Full language equality with RFC 8259 is not decided.",
+    [
+        only_cfgs(_lazy("utf8tab", "rule_json_utf8"), ["cli"]),
+        only_cfgs(_lazy("cgrules", "rule_rec", entries=E_C08, name="REC(json::validate)", scope=r"^json::validate::"), ["cli"]),
+    ],
+    quick=["cli"],
+    technique="call-graph SCC + dominance of depth guards; finite-domain evaluation of validator MIR vs Unicode Table 3-7",
+)
+
+
 def run(pid, tier, only=None, replay=None):
     if pid not in REGISTRY:
         print("property %s is not claimed (see MANIFEST.not_applicable)" % pid)
